@@ -221,6 +221,87 @@ Theorem C17_params_in_out :
 Proof. split; [exact recycled_params_keep|]. split; [reflexivity|exact match_into_new]. Qed.
 Print Assumptions C17_params_in_out.
 
+(* ONE RouteParams OBJECT DISPATCHED AGAIN AND AGAIN (a recycled *mux.Message whose
+   Uri-Path options were replaced; a router called from a handler of another
+   router that rewrote the path).  For every reachable router, every history of
+   operations and dispatches in which each dispatch is handed the RouteParams the
+   previous one left, starting from ANY content [p0]: the dispatch goes by the
+   path the message has NOW -- its handler trace is that of a dispatch with a
+   new RouteParams on a router on which only the operations before it were
+   performed, hence exactly one handler, of a longest matching registered route,
+   else the default -- and the object afterwards is Match's write for the
+   current path into what the object held *)
+Theorem C17_reuse : forall st0 mws pre segs order post p0, wf st0 ->
+  let st := apply_ops st0 (hops pre) in
+  let p := reuse_params st0 mws pre p0 in
+  let path := filter_path (path_of segs) in
+  let out := serve_into st mws order segs p in
+  nth_error (run_reuse st0 mws (pre ++ HServe segs order :: post) p0) (hserves pre) = Some out /\
+  fst out = fst (serve st mws order segs) /\
+  snd out = match_into (scan order path None O) path p /\
+  (Permutation order (routes_of st) ->
+   dispatch_class (sregs_of st) (st_default st) mws path
+     (fst out) (snd (serve st mws order segs)) = 0%N).
+Proof. exact reuse_dispatch. Qed.
+Print Assumptions C17_reuse.
+
+(* ... and what the handler of the selected route reads in a used object: Path is
+   the current path, PathTemplate its own pattern, each of its own variables has
+   the value it has in a new RouteParams (by C17_vars: the substring of the
+   current path); names that are not variables of the pattern keep what the
+   object held; when no route matches the object is not touched *)
+Theorem C17_reuse_vars :
+  (forall r path p0,
+     rp_path (match_into (Some r) path p0) = path /\
+     rp_tmpl (match_into (Some r) path p0) = r_pat r /\
+     forall k, vlookup (rp_map (match_into (Some r) path p0)) k =
+               match vlookup (rp_map (match_into (Some r) path rp_new)) k with
+               | Some v => Some v
+               | None => vlookup (rp_map p0) k
+               end) /\
+  (forall path p0, match_into None path p0 = p0).
+Proof. split; [exact reused_params|reflexivity]. Qed.
+Print Assumptions C17_reuse_vars.
+
+(* ... and in Spec terms: the property predicate for a request whose RouteParams
+   object was used before ([reuse_class]: the handler that ran decides whether a
+   route was selected; Vars cut down to the variable names of that pattern; then
+   [dispatch_class] for the path the message has now) holds on the model's
+   output for every reachable router, every middleware list, every iteration
+   order, every request and every content of the object handed in (a Go map: no
+   key twice).  Handler identities are those of the harness: the default handler
+   is not also the handler of a route. *)
+Theorem C17_reuse_spec : forall st mws order segs p0, wf st -> Permutation order (routes_of st) ->
+  NoDup (map fst (rp_map p0)) ->
+  (forall r d, In r (routes_of st) -> st_default st = Some d -> r_h r <> d) ->
+  let path := filter_path (path_of segs) in
+  let out := serve_into st mws order segs p0 in
+  reuse_class (sregs_of st) (st_default st) mws path (fst out) (rp_obs (snd out)) = 0%N.
+Proof. exact reuse_spec. Qed.
+Print Assumptions C17_reuse_spec.
+
+(* non-vacuity: "/a/{id}" (1), "/b/{id}" (2), default 1000; ONE RouteParams through
+   the requests /a/1, /b/2, /zzz: handlers 1, 2, 1000, the object holds (/a/1,
+   /a/{id}, id=1), then (/b/2, /b/{id}, id=2), then is left alone; the predicate
+   for used objects accepts each, and rejects (class 3) the dispatch of /b/2 on
+   the stale path: handler 1 with (/a/1, /a/{id}, id=1) *)
+Example C17_reuse_instance :
+  let b := fun l : list Z => l in
+  let ta := b [47;97;47;123;105;100;125] in
+  let tb := b [47;98;47;123;105;100;125] in
+  let st := apply_ops init_state [ODefault (Some 1000); OHandle ta (Some 1); OHandle tb (Some 2)] in
+  let qa := [b [97]; b [49]] in let qb := [b [98]; b [50]] in let qz := [b [122;122;122]] in
+  let outs := run_reuse st [] [HServe qa (routes_of st); HServe qb (routes_of st); HServe qz (routes_of st)] rp_new in
+  map (fun o => (handlers_of (fst o), rp_obs (snd o))) outs =
+    [([1], Some (b [47;97;47;49], ta, [(b [105;100], b [49])]));
+     ([2], Some (b [47;98;47;50], tb, [(b [105;100], b [50])]));
+     ([1000], Some (b [47;98;47;50], tb, [(b [105;100], b [50])]))] /\
+  map (fun qo => reuse_class (sregs_of st) (st_default st) [] (filter_path (path_of (fst qo)))
+                   (fst (snd qo)) (rp_obs (snd (snd qo)))) (combine [qa; qb; qz] outs) = [0%N; 0%N; 0%N] /\
+  reuse_class (sregs_of st) (st_default st) [] (filter_path (path_of qb)) [Hd 1]
+    (Some (b [47;97;47;49], ta, [(b [105;100], b [49])])) = 3%N.
+Proof. vm_compute. repeat split. Qed.
+
 (* FINE-GRAINED LOCKING (sync.RWMutex explicit; taking the lock can be refused;
    the scan of Match is one step per route, each reading the live map; any
    thread may run between two steps).  For every start state, every set of
